@@ -20,6 +20,13 @@ def _replay(modname, prop):
 
 
 SUITES = {
+    'C01': ('adapters.suites_db', 'start models x mutation catalogue (add/delete/rename/change/Meta/rename-model/delete) run on real SQLite: '
+                                  'evolved schema (columns, indexes, constraints, FKs) == schema of freshly created target models'),
+    'C02': ('adapters.suites_db', 'orderings of 1-3 initial-carrying mutations x 0/1/6 rows incl. NULLs, boundary values: surviving cells unchanged, '
+                                  'added columns hold the declared initial, null->not-null fills exactly the NULLs'),
+    'C03': ('adapters.suites_db', 'mutation sequences (exhaustive to length 3 over a small alphabet + samples): one-at-a-time vs one optimised run vs the '
+                                  'same objects a second time vs the real Evolver pipeline: same signature, schema, rows'),
+    'C18': ('adapters.suites_db', 'same sequence space: table rebuilds batched <= one-at-a-time; runs of mergeable ops rebuild once'),
     'C11': ('adapters.suites_refs', 'two-app projects with cross-app/self relations x rename/delete mutations through AppMutator on real SQLite: '
                                     'every relation in the signature resolves, database foreign keys point at the renamed tables/columns, fk check passes'),
     'C14': ('adapters.suites_refs', 'evolve --sql preview vs the execute trace; output identical across PYTHONHASHSEED values (subprocesses)'),
